@@ -19,6 +19,7 @@ type rparams struct {
 	tag                           *uint64
 	str                           int
 	hasDefault                    bool
+	dflt                          *int64
 }
 
 func parseTag(s string) rparams {
@@ -42,6 +43,9 @@ func parseTag(s string) rparams {
 			p.str = 25
 		case strings.HasPrefix(w, "default:"):
 			p.hasDefault = true
+			if n, err := strconv.ParseInt(w[8:], 10, 64); err == nil {
+				p.dflt = &n
+			}
 		case strings.HasPrefix(w, "tagNum:"):
 			if n, err := strconv.ParseUint(w[7:], 10, 64); err == nil {
 				p.tag = &n
